@@ -78,7 +78,9 @@ MptReferenced(f, t) == \E m \in Mats : t \in UsesM(f.mats[m])
 (*   [op, d, k, v, ow, ai, am, aa, by, cm, ca]                             *)
 (* op in ads_to mat_to apt_to mpt_to ity_to iso_to ads_del mat_del apt_del *)
 (*       mpt_del ity_del iso_del ads_from mats_from apt_from mpt_from      *)
-(*       ity_from iso_from;  d target file; k key; v content token;        *)
+(*       ity_from iso_from, and "session" (the Python process ends and a   *)
+(*       new one opens the same files: no effect on any file);             *)
+(*       d target file; k key; v content token;                            *)
 (* ow overwrite; ai autoinsert_properties; am/aa autoinsert_material /     *)
 (* _adsorbate; by = how the argument of a delete is given ("name", "obj",  *)
 (* "retrieved": through the object *_from_db returned); cm, ca = criteria  *)
@@ -255,6 +257,8 @@ ImplStep(f, reg, o) ==
     [] o.op \in {"apt_to", "mpt_to", "ity_to"} -> ImplTyTo(f, reg, FieldOf(o.op), o)
     \* sqlite_db_pragmas.py never creates table isotherm_properties_type: sqlite3.OperationalError
     [] o.op \in {"ipt_to", "ipt_del", "ipt_from"} -> RI("error", f, reg)
+    \* a new session starts with the registries as loaded from the internal database: none of our items
+    [] o.op = "session" -> RI("ok", f, [mats |-> [m \in DOMAIN reg.mats |-> 0], ads |-> [a \in DOMAIN reg.ads |-> 0]])
     [] o.op = "iso_to"  -> ImplIsoTo(f, reg, o)
     [] o.op = "ads_del" -> ImplDel(f, reg, "ads", o.k, AdsReferenced(f, o.k), TRUE)
     [] o.op = "mat_del" -> ImplDel(f, reg, "mats", o.k, MatReferenced(f, o.k), TRUE)
